@@ -135,6 +135,21 @@ CHECKS.update({
         design="8 C08"),
 })
 
+CHECKS.update({
+    "C19": dict(
+        text="Mechanism-level obligations on the real lexer rules, productions, token actions, literal classes and backend handlers: "
+             "(a) exact regular-language inclusions under the lexer's flags: WS+ ci(kw) WS+ inside each operator rule and not shadowed by an "
+             "earlier rule, every case assignment of literal keywords inside its rule, WS+ inside WS; (b) finite check of the grammar: BWS "
+             "after every '(' , before every ')', around every ',' and the lambda ':', both BWS alternatives, no action reads a BWS slot; "
+             "(c) token actions normalise the spelling or store it raw; (d) for raw keyword-bearing kinds (Boolean, DateTime, Float, "
+             "Duration) py_val and the handler of each of the 7 backends read .val only under lower()/upper(), through py_val, or as a token of "
+             "a case-insensitive target language (2-safety by dependence analysis on every path).",
+        note="Lifting (a)-(d) to whole filters needs the SLY/re contracts assumed in C05/C06. Case-insensitivity of float() and dateutil "
+             "isoparse() is assumed (bounded family, not counted). GUID hex digits, string contents and field names are content, not keywords.",
+        technique="regular-language inclusion on the real rule patterns; finite grammar check; contracts on token actions and backend handlers (pyvc)",
+        design="8 C19"),
+})
+
 NOT_APPLICABLE = {
     "C02": "the rows a Django QuerySet returns are decided by Django's SQL compiler and SQLite, not by any function in /repo; no contract on repo code can express it (DESIGN section 9)",
     "C03": "row semantics are decided by SQLAlchemy's compiler (operator rendering, contains escaping, boolean rendering) and SQLite (DESIGN section 9)",
